@@ -17,38 +17,68 @@ func init() {
 
 // yamlFieldRoot describes a leaf "field-root:ProxyConfig.Listens.NoReceived".
 func yamlTagOfPath(w *World, path string) (tag string, exported bool, ok bool) {
+	tag, exported, _, ok = yamlKeyOfPath(w, path)
+	return
+}
+
+// yamlKeyOfPath also gives the key path under which gopkg.in/yaml.v3 looks the field up in the configuration file: the
+// tag name of each field on the path, the lower-cased field name without one; a field tagged ",inline" adds no level, an
+// embedded struct WITHOUT that flag does (yaml.v3 does not inline anonymous fields by itself), and a field the decoder
+// cannot set (unexported) makes everything below it unreachable ("!" in the path).
+func yamlKeyOfPath(w *World, path string) (tag string, exported bool, keyPath string, ok bool) {
 	parts := strings.Split(path, ".")
 	if len(parts) < 2 {
-		return "", false, false
+		return "", false, "", false
 	}
 	n := w.lookupType(parts[0])
 	if n == nil {
-		return "", false, false
+		return "", false, "", false
 	}
 	t := n.Underlying()
+	var keys []string
 	for i := 1; i < len(parts); i++ {
 		if sl, isSl := t.(*types.Slice); isSl {
 			t = sl.Elem().Underlying()
 		}
+		if pt, isP := t.(*types.Pointer); isP {
+			t = pt.Elem().Underlying()
+		}
 		st, isSt := t.(*types.Struct)
 		if !isSt {
-			return "", false, false
+			return "", false, "", false
 		}
 		found := false
 		for k := 0; k < st.NumFields(); k++ {
 			if fvName(st.Field(k)) == parts[i] {
 				found = true
+				yt := reflect.StructTag(st.Tag(k)).Get("yaml")
+				opts := strings.Split(yt, ",")
+				inline := false
+				for _, o := range opts[1:] {
+					if o == "inline" {
+						inline = true
+					}
+				}
+				switch {
+				case !st.Field(k).Exported():
+					keys = append(keys, "!"+st.Field(k).Name())
+				case inline:
+				case opts[0] != "":
+					keys = append(keys, opts[0])
+				default:
+					keys = append(keys, strings.ToLower(st.Field(k).Name()))
+				}
 				if i == len(parts)-1 {
-					return reflect.StructTag(st.Tag(k)).Get("yaml"), st.Field(k).Exported(), true
+					return yt, st.Field(k).Exported(), strings.Join(keys, "/"), true
 				}
 				t = st.Field(k).Type().Underlying()
 			}
 		}
 		if !found {
-			return "", false, false
+			return "", false, "", false
 		}
 	}
-	return "", false, false
+	return "", false, "", false
 }
 
 func runC07(c *Ctx) {
@@ -77,7 +107,7 @@ func runC07(c *Ctx) {
 				switch {
 				case strings.HasPrefix(body, "field-root:"):
 					path := strings.TrimPrefix(body, "field-root:")
-					tag, exported, ok := yamlTagOfPath(w, path)
+					tag, exported, keyPath, ok := yamlKeyOfPath(w, path)
 					tagName := strings.Split(tag, ",")[0]
 					if !ok || tagName != "no-received" {
 						good = false
@@ -85,6 +115,10 @@ func runC07(c *Ctx) {
 						continue
 					}
 					nRoot++
+					if keyPath != "listens/no-received" {
+						good = false
+						why = append(why, fmt.Sprintf("the YAML decoder looks %s up under the key path %q, not under no-received of the listens entry (an embedded struct is not inlined without `yaml:\",inline\"`; an unexported level cannot be set): no-received: true in a listener's configuration is silently ignored", path, keyPath))
+					}
 					if !exported {
 						good = false
 						why = append(why, "field "+path+" is unexported: YAML cannot set it")
